@@ -108,8 +108,7 @@ type mframe struct {
 type mach struct {
 	c          *Ctx
 	globals    map[*ssa.Global]*mv
-	onceDone   map[*mv]bool   // sync.Once values whose function has run
-	tainted    map[*mv]string // receivers of method calls that ended outside the model
+	onceDone   map[*mv]bool // sync.Once values whose function has run
 	inited     map[*ssa.Package]bool
 	symHeap    map[string]*mv
 	steps      int
@@ -162,26 +161,6 @@ func (m *mach) throw(val mv, format string, a ...interface{}) {
 
 // Call runs fn on args; Go-level panics of the machine are turned into the outcome.
 func (m *mach) Call(fn *ssa.Function, args ...mv) (ret mv, out mOutcome) {
-	// a method call that ended outside the model may have left its receiver half-updated: whatever is
-	// asked of that object afterwards is outside the model too (never a finding)
-	recvOf := func() *mv {
-		if fn.Signature.Recv() == nil || len(args) == 0 {
-			return nil
-		}
-		a := args[0]
-		if i, ok := a.(mIface); ok {
-			a = i.v
-		}
-		if p, ok := a.(*mv); ok {
-			return p
-		}
-		return nil
-	}
-	if p := recvOf(); p != nil {
-		if why, bad := m.tainted[p]; bad {
-			return nil, mOutcome{kind: "opaque", why: "an earlier call on this object ended outside the model (" + why + ")"}
-		}
-	}
 	defer func() { crashRecord(m, fn, args, ret, out) }() // declared first: runs after the recovery below
 	defer func() {
 		if r := recover(); r != nil {
@@ -192,16 +171,6 @@ func (m *mach) Call(fn *ssa.Function, args ...mv) (ret mv, out mOutcome) {
 				out = mOutcome{kind: "panic", why: t.why, val: t.val}
 			default:
 				out = mOutcome{kind: "opaque", why: fmt.Sprintf("evaluator fault: %v", r)}
-			}
-			if out.kind == "opaque" {
-				if p := recvOf(); p != nil {
-					if m.tainted == nil {
-						m.tainted = map[*mv]string{}
-					}
-					if len(m.tainted) < 4096 {
-						m.tainted[p] = out.why
-					}
-				}
 			}
 		}
 	}()
